@@ -18,7 +18,7 @@ MANIFEST = {
 }
 THEOREMS = ['C02.capSites_table', 'C02.cap_growth_entitled', 'C02.no_new_owner_step', 'C02.not_granted_owner', 'C02.reload_caps_sub',
             'C02.no_new_owner_reload', 'C02.reload_preserves_inv', 'C02.reloadNoFlush_preserves_inv', 'C02.step_preserves_inv', 'C02.history_safe',
-            'C02.step_preserves_fileOk', 'C02.reloadNoFlush_caps_sub', 'C02.no_new_owner_reloadNoFlush', 'C02.flushReload_fileOk',
+            'C02.step_preserves_fileOk', 'C02.reloadNoFlush_caps_sub', 'C02.no_new_owner_reloadNoFlush', 'C02.reloadUsersFrom_file', 'C02.flushReload_fileOk',
             'C02.reloadNoFlush_fileOk', 'C02.step_safe_all', 'C02.history_safe_all', 'C02.st0_inv3',
             'C02.st0_inv', 'C02.cfg0_hashSafe']
 TRUSTED = ['Lean 4.33.0 kernel; axioms ⊆ {propext, Classical.choice, Quot.sound}',
@@ -427,7 +427,7 @@ def run_history(b, r, n_steps, out, hist_id):
                 c16.enc_users(c16.canon_users(cur['users'])) != c16.enc_users(c16.canon_users(prev['users'])):
             tags.append('goodrun-unacknowledged-change')
         if k in ('flushReload', 'reload') and getattr(ircdb.log, 'exc', None):
-            tags.append('goodrun-load-failed')
+            tags.append('load-stopped')        # no longer a run condition: history_safe_all covers loads that stop
         c = Case({'history': hist_id, 'step': si, 'trail': list(trail)}, impl=('1' if ok else '0') + '\t' + enc_state(cur),
                  oracle_ok=(not msgs), oracle_msg='; '.join(msgs), kind='history', tags=tuple(tags) if (changed or k in ('flushReload', 'reload', 'flushAll', 'upkeep')) else ())
         steps.append(c)
